@@ -208,54 +208,55 @@ func ParseControlFile(data []byte) (*ControlFile, error) {
 	// CheckPoint.oldestActiveXid: TransactionId at offset 120
 	cf.OldestActiveXID = binary.LittleEndian.Uint32(data[120:124])
 
-	// After CheckPoint structure, more fields follow
-	// The exact offsets depend on version, but we can search for known patterns
+	// The CheckPoint copy ends (padded) at offset 128. The remaining fields of
+	// ControlFileData sit at fixed offsets in PostgreSQL 12-16:
+	//   unloggedLSN 128, minRecoveryPoint 136, minRecoveryPointTLI 144,
+	//   backupStartPoint 152, backupEndPoint 160, backupEndRequired 168
 
-	// Configuration parameters section starts around offset 200-220
-	// Look for the wal_level and other settings
-
-	// Find the configuration section by looking for max_connections pattern
-	// These are typically small positive integers in sequence
-	configOffset := findConfigSection(data, 180)
-	if configOffset > 0 {
-		// max_connections at configOffset
-		cf.MaxConnections = int32(binary.LittleEndian.Uint32(data[configOffset : configOffset+4]))
-		cf.MaxWorkerProcesses = int32(binary.LittleEndian.Uint32(data[configOffset+4 : configOffset+8]))
-		cf.MaxWALSenders = int32(binary.LittleEndian.Uint32(data[configOffset+8 : configOffset+12]))
-		cf.MaxPreparedXacts = int32(binary.LittleEndian.Uint32(data[configOffset+12 : configOffset+16]))
-		cf.MaxLocksPerXact = int32(binary.LittleEndian.Uint32(data[configOffset+16 : configOffset+20]))
-
-		// wal_level is before max_connections
-		walLevel := int(binary.LittleEndian.Uint32(data[configOffset-8 : configOffset-4]))
-		if walLevel >= 0 && walLevel < len(walLevelNames) {
-			cf.WALLevel = walLevelNames[walLevel]
-		}
-		cf.WALLogHints = data[configOffset-4] != 0
-		cf.TrackCommitTS = data[configOffset+20] != 0
+	// wal_level: int at offset 172
+	walLevel := int(binary.LittleEndian.Uint32(data[172:176]))
+	if walLevel >= 0 && walLevel < len(walLevelNames) {
+		cf.WALLevel = walLevelNames[walLevel]
 	}
 
-	// Storage parameters - find by looking for block_size (8192)
-	storageOffset := findStorageSection(data, 220)
-	if storageOffset > 0 {
-		cf.MaxAlign = binary.LittleEndian.Uint32(data[storageOffset : storageOffset+4])
-		cf.BlockSize = binary.LittleEndian.Uint32(data[storageOffset+8 : storageOffset+12])
-		cf.BlocksPerSeg = binary.LittleEndian.Uint32(data[storageOffset+12 : storageOffset+16])
-		cf.WALBlockSize = binary.LittleEndian.Uint32(data[storageOffset+16 : storageOffset+20])
-		cf.WALSegmentSize = binary.LittleEndian.Uint32(data[storageOffset+20 : storageOffset+24])
-		cf.NameDataLen = binary.LittleEndian.Uint32(data[storageOffset+24 : storageOffset+28])
-		cf.IndexMaxKeys = binary.LittleEndian.Uint32(data[storageOffset+28 : storageOffset+32])
-		cf.TOASTMaxChunk = binary.LittleEndian.Uint32(data[storageOffset+32 : storageOffset+36])
-		cf.LargeObjectChunk = binary.LittleEndian.Uint32(data[storageOffset+36 : storageOffset+40])
+	// wal_log_hints: bool at offset 176
+	cf.WALLogHints = data[176] != 0
 
-		// Float format check (1234567.0 as float64)
-		floatVal := math.Float64frombits(binary.LittleEndian.Uint64(data[storageOffset+40 : storageOffset+48]))
-		cf.FloatFormatOK = floatVal == 1234567.0
+	// MaxConnections, max_worker_processes, max_wal_senders, max_prepared_xacts,
+	// max_locks_per_xact: int at offsets 180..196
+	cf.MaxConnections = int32(binary.LittleEndian.Uint32(data[180:184]))
+	cf.MaxWorkerProcesses = int32(binary.LittleEndian.Uint32(data[184:188]))
+	cf.MaxWALSenders = int32(binary.LittleEndian.Uint32(data[188:192]))
+	cf.MaxPreparedXacts = int32(binary.LittleEndian.Uint32(data[192:196]))
+	cf.MaxLocksPerXact = int32(binary.LittleEndian.Uint32(data[196:200]))
 
-		// Data checksums flag
-		cf.DataChecksumsEnabled = data[storageOffset+48] != 0
-	}
+	// track_commit_timestamp: bool at offset 200
+	cf.TrackCommitTS = data[200] != 0
 
-	// Default values if not found
+	// maxAlign: uint32 at offset 204
+	cf.MaxAlign = binary.LittleEndian.Uint32(data[204:208])
+
+	// floatFormat: double at offset 208 (1234567.0 when the format matches)
+	floatVal := math.Float64frombits(binary.LittleEndian.Uint64(data[208:216]))
+	cf.FloatFormatOK = floatVal == 1234567.0
+
+	// blcksz, relseg_size, xlog_blcksz, xlog_seg_size, nameDataLen, indexMaxKeys,
+	// toast_max_chunk_size, loblksize: uint32 at offsets 216..244
+	cf.BlockSize = binary.LittleEndian.Uint32(data[216:220])
+	cf.BlocksPerSeg = binary.LittleEndian.Uint32(data[220:224])
+	cf.WALBlockSize = binary.LittleEndian.Uint32(data[224:228])
+	cf.WALSegmentSize = binary.LittleEndian.Uint32(data[228:232])
+	cf.NameDataLen = binary.LittleEndian.Uint32(data[232:236])
+	cf.IndexMaxKeys = binary.LittleEndian.Uint32(data[236:240])
+	cf.TOASTMaxChunk = binary.LittleEndian.Uint32(data[240:244])
+	cf.LargeObjectChunk = binary.LittleEndian.Uint32(data[244:248])
+
+	// float8ByVal (and float4ByVal in PostgreSQL 12) at offset 248
+
+	// data_checksum_version: uint32 at offset 252 (0 = checksums disabled)
+	cf.DataChecksumsEnabled = binary.LittleEndian.Uint32(data[252:256]) != 0
+
+	// Default values if the stored sizes are zero
 	if cf.BlockSize == 0 {
 		cf.BlockSize = 8192
 	}
@@ -276,44 +277,6 @@ func ParseControlFile(data []byte) (*ControlFile, error) {
 	}
 
 	return cf, nil
-}
-
-// findConfigSection finds the configuration parameters section
-func findConfigSection(data []byte, startOffset int) int {
-	// Look for max_connections pattern (typically 100)
-	// followed by max_worker_processes (typically 8)
-	for i := startOffset; i < len(data)-24 && i < 280; i += 4 {
-		val1 := int32(binary.LittleEndian.Uint32(data[i : i+4]))
-		val2 := int32(binary.LittleEndian.Uint32(data[i+4 : i+8]))
-
-		// max_connections is usually 100, max_worker_processes is usually 8
-		if val1 >= 1 && val1 <= 10000 && val2 >= 1 && val2 <= 1000 {
-			// Verify by checking max_wal_senders (typically 10)
-			val3 := int32(binary.LittleEndian.Uint32(data[i+8 : i+12]))
-			if val3 >= 0 && val3 <= 1000 {
-				return i
-			}
-		}
-	}
-	return 0
-}
-
-// findStorageSection finds the storage parameters section
-func findStorageSection(data []byte, startOffset int) int {
-	// Look for block_size (8192) pattern
-	for i := startOffset; i < len(data)-48 && i < 300; i += 4 {
-		// max_align is typically 8
-		val0 := binary.LittleEndian.Uint32(data[i : i+4])
-		// block_size is 8192
-		val1 := binary.LittleEndian.Uint32(data[i+8 : i+12])
-		// wal_block_size is 8192
-		val3 := binary.LittleEndian.Uint32(data[i+16 : i+20])
-
-		if val0 == 8 && val1 == 8192 && val3 == 8192 {
-			return i
-		}
-	}
-	return 0
 }
 
 // formatLSN formats an LSN as PostgreSQL does (high/low)
